@@ -34,7 +34,7 @@ Proof. exact RewriteFacts.C07_kernel_generator_nested_refuted. Qed.
 Print Assumptions C07_kernel_generator_nested_refuted.
 
 (** fix-hasattr-call: the rewritten call is left alone *)
-Theorem C07_kernel_hasattr_stable : forall a, hasattr_step (MiniPy.ECall MiniPy.BCallable [a]) = MiniPy.ECall MiniPy.BCallable [a].
+Theorem C07_kernel_hasattr_stable : forall cfg a, hasattr_step cfg (MiniPy.ECall MiniPy.BCallable [a]) = MiniPy.ECall MiniPy.BCallable [a].
 Proof. exact C07_kernel_hasattr_step_stable. Qed.
 Print Assumptions C07_kernel_hasattr_stable.
 
